@@ -114,11 +114,20 @@ Definition interp_match (c : ictx) (tname : str) (k : ekind) (expr : str) (it va
   else lang.
 
 (* Table.interpreterUpdate: with the native interpreter on there is no fallback *)
+Definition poke_marker : str := bs "@poke".
+
 Definition interp_update (c : ictx) (tname expr : str) (it vals : item) (names : fmap str)
   : outcome (item * list nat) :=
   if use_native c then
     match lookup (reg_key tname expr) (r_upd (reg c)) with
-    | Some (id, set) => Ok (fold_left (fun acc kv => insert (fst kv) (snd kv) acc) set it, [id])
+    | Some (id, set) =>
+        (* the callbacks the harness registers: they set the attributes of [set]; when [set] carries the marker attribute
+           "@poke" they also write, in place, the entry poked -> "p" into every top-level map attribute of the item (an
+           updater is arbitrary user code working on the item it is handed) *)
+        let it1 := fold_left (fun acc kv => insert (fst kv) (snd kv) acc) (remove poke_marker set) it in
+        Ok (if mem poke_marker set
+            then map (fun kv => match snd kv with AM m => (fst kv, AM (insert (bs "poked") (AS (bs "p")) m)) | _ => kv end) it1
+            else it1, [id])
     | None => Err Unsupported
     end
   else omap (fun i => (i, [])) (lang_update expr it vals names).
